@@ -56,14 +56,19 @@ SimClauses(ev) ==
   IN  F("support", \E i \in 1..Len(obs) : obs[i].c \notin sup)
       \cup F("freq", \E c \in sup : LET l2 == L2(Exec(p, ev.args, c, FALSE)) IN
                         KP + l2 < 0 \/ AbsI(cnt(c) * Pow2(KP) - ev.n * Pow2(KP + l2)) > ev.bound * Pow2(KP))
-      \cup F("pair", LET pr == [c \in sup |-> Pow2(KP + L2(Exec(p, ev.args, c, FALSE)))]          \* pairwise marginals: key reuse between two addresses
-                          AU == Addrs(p)                                                            \* moves a pair cell by >= 1/16 even when every joint cell is tiny
-                          has(c, a, u) == IF u < 0 THEN a \notin DOMAIN c ELSE a \in DOMAIN c /\ c[a] = u
-                          on(c, a, u, b, v) == IF has(c, a, u) /\ has(c, b, v) THEN 1 ELSE 0
-                      IN  \E a \in AU, b \in AU : a # b /\ \E u \in -1..2, v \in -1..2 :
-                            LET ex == SumAll([c \in sup |-> pr[c] * on(c, a, u, b, v)])
-                                ob == SumAll([i \in 1..Len(obs) |-> obs[i].n * on(obs[i].c, a, u, b, v)])
-                            IN  AbsI(ob * Pow2(KP) - ev.n * ex) > ev.bound * Pow2(KP))
+      \cup F("pair", LET supS == SetToSeq(sup)                                                     \* pairwise marginals: key reuse between two addresses
+                          prS  == [i \in 1..Len(supS) |-> Pow2(KP + L2(Exec(p, ev.args, supS[i], FALSE)))]   \* moves a pair cell by >= 1/16 even when every joint cell is tiny
+                          AS   == SetToSeq(Addrs(p))
+                          obC  == [i \in 1..Len(obs) |-> obs[i].c]
+                          obN  == [i \in 1..Len(obs) |-> obs[i].n]
+                          val(c, a) == IF a \in DOMAIN c THEN c[a] ELSE -1
+                          Idx(n) == [i \in 1..n |-> i]
+                          Zero == [k \in (-1..2) \X (-1..2) |-> 0]
+                          Tab(cs, wt, a, b) == FoldLeft(LAMBDA acc, i : [acc EXCEPT ![<<val(cs[i], a), val(cs[i], b)>>] = @ + wt[i]], Zero, Idx(Len(cs)))
+                      IN  \E ia \in 1..Len(AS), ib \in 1..Len(AS) : ia < ib /\
+                            LET ex == Tab(supS, prS, AS[ia], AS[ib])
+                                ob == Tab(obC, obN, AS[ia], AS[ib])
+                            IN  \E k \in DOMAIN Zero : AbsI(ob[k] * Pow2(KP) - ev.n * ex[k]) > ev.bound * Pow2(KP))
       \cup F("total", tot # ev.n)
       \cup F("mass", LET f == [c \in sup |-> Pow2(KP + L2(Exec(p, ev.args, c, FALSE)))] IN SumAll(f) # Pow2(KP))   \* the spec's own probabilities sum to 1
       \cup F("det", ~ev.det)
